@@ -22,6 +22,10 @@ type Explorer struct {
 	// NoPolling asserts that no select-with-default ever involves an unbuffered model channel (checked at
 	// run time); then a thread's arrival at a channel operation is not observable and needs no step of its own.
 	NoPolling bool
+	// EveryDeviationCosts switches from preemption bounding to deviation bounding: every choice other than
+	// the default one (continue the running thread, else the lowest enabled thread id, first ready select
+	// case) costs 1, also when the running thread is blocked. For systems with many symmetric threads.
+	EveryDeviationCosts bool
 
 	bound       int
 	prune       bool
